@@ -65,6 +65,7 @@ SELF_FIELDS = {
               "_fitness_i": "float64[:]", "_population_g_i": "int8[:, :]"},
     "SelfCGA": {"_K": "float64", "_iters": "int64"},
     "GeneticAlgorithm": {"_fitness_scale_i": "float64[:]", "_fitness_rank_i": "float64[:]", "_population_g_i": "int8[:, :]"},
+    "PDPGA": {"_fitness_scale_i": "float64[:]", "_fitness_rank_i": "float64[:]", "_population_g_i": "int8[:, :]", "_fitness_i": "float64[:]"},
     "jDE": {"_pop_size": "int64", "_F": "float64[:]", "_CR": "float64[:]", "_t_F": "float64", "_t_CR": "float64", "_F_min": "float64", "_F_max": "float64"},
 }
 METHOD_TARGETS_0 = [
@@ -88,6 +89,8 @@ METHOD_TARGETS_0 = [
     ("optimizers/_shaga.py", "SHAGA", "_get_new_individ_g", "SHAGA_get_new_individ_g", "int8[:](int8[:], float64, float64)", {}),
     ("optimizers/_differentialevolution.py", "DifferentialEvolution", "_get_new_individ_g", "DE_get_new_individ_g", "float64[:](float64[:], float64, float64)", {}),
     ("optimizers/_geneticalgorithm.py", "GeneticAlgorithm", "_get_new_individ_g", "GA_get_new_individ_g", "int8[:]()", {}),
+    ("optimizers/_pdpga.py", "PDPGA", "_choice_parent", "PDPGA_choice_parent", "float64(float64[:])", {}),
+    ("optimizers/_pdpga.py", "PDPGA", "_get_new_individ_g", "PDPGA_get_new_individ_g", "(float64, int8[:])()", {}),
 ]
 METHOD_TARGETS = [t for t in METHOD_TARGETS_0]
 # a function-valued local bound by a pinned statement becomes a leading function parameter: (statement text, Coq type, result type, argument types)
@@ -104,7 +107,10 @@ POOL_LOCALS = {"GA_get_new_individ_g": [
      [("mutation_func", ("F", "list Z -> Q -> M (list Z)", "int8[:]", ["int8[:]", "float64"])), ("proba", "float64"), ("is_constant_rate", "boolean")]),
 ]}
 C07_METHODS = ["SHADE_get_new_individ_g", "DE_get_new_individ_g"]
-C06_METHODS = ["SHAGA_get_new_individ_g", "GA_get_new_individ_g"]
+POOL_LOCALS["PDPGA_get_new_individ_g"] = POOL_LOCALS["GA_get_new_individ_g"]
+# `self._f.append(E)` exactly once on every path: the appended value is part of the result — the function returns (appended value, result)
+OUT_APPENDS = {"PDPGA_get_new_individ_g": "_previous_fitness_i"}
+C06_METHODS = ["SHAGA_get_new_individ_g", "GA_get_new_individ_g", "PDPGA_choice_parent", "PDPGA_get_new_individ_g"]
 DICT_PARAMS = {"SelfCGA_get_new_proba": ("proba_dict", "operator")}
 C14_METHODS = ["SelfCGA_get_new_proba"]
 # how a call site selects a specialisation: (callee, sorted names of the arguments given) -> output name
@@ -1441,6 +1447,21 @@ def specialise(node, cls, out_name, consts, method_fields):
         for x in ast.walk(ast.Module(body=stmts_in, type_ignores=[])):
             if isinstance(x, ast.Name) and x.id == fname_local and not isinstance(x.ctx, ast.Load):
                 raise Untranslatable(x, "the strategy function is re-bound")
+    out_append = OUT_APPENDS.get(out_name)
+    if out_append is not None:
+        text_prefix = f"self.{out_append}.append("
+        hits = [st for st in stmts_in if isinstance(st, ast.Expr) and ast.unparse(st).startswith(text_prefix)]
+        if len(hits) != 1 or len(hits[0].value.args) != 1 or hits[0].value.keywords:
+            raise Untranslatable(node, f"expected exactly one top-level statement self.{out_append}.append(<value>)")
+        k_ = stmts_in.index(hits[0])
+        stmts_in[k_] = ast.copy_location(ast.Assign(targets=[ast.Name(id="appended_value", ctx=ast.Store())], value=hits[0].value.args[0], lineno=hits[0].lineno), hits[0])
+        if any(isinstance(x, ast.Attribute) and x.attr == out_append for st in stmts_in for x in ast.walk(st)):
+            raise Untranslatable(node, f"self.{out_append} is used other than by the single append")
+        if not isinstance(stmts_in[-1], ast.Return) or any(isinstance(x, ast.Return) for st in stmts_in[:-1] for x in ast.walk(st)):
+            raise Untranslatable(node, "a single final return is expected")
+        stmts_in[-1] = ast.copy_location(ast.Return(value=ast.Tuple(elts=[ast.Name(id="appended_value", ctx=ast.Load()), stmts_in[-1].value], ctx=ast.Load())), stmts_in[-1])
+        for st in stmts_in:
+            ast.fix_missing_locations(st)
     pool_locals = POOL_LOCALS.get(out_name, [])
     pool_names = []
     for text, binds in pool_locals:
